@@ -17,7 +17,6 @@ import (
 	"verifharness/pkg/jws"
 
 	"github.com/dunglas/mercure"
-	"go.uber.org/zap"
 )
 
 func init() { register("pub", "C02", runPub) }
@@ -58,7 +57,7 @@ func scratchDir() string {
 }
 
 func newBolt(dir string, size uint64, freq float64) *mercure.BoltTransport {
-	t, err := mercure.NewBoltTransport(zap.NewNop(), filepath.Join(dir, "h.db"), "", size, freq)
+	t, err := mercure.NewBoltTransport(zapNop(), filepath.Join(dir, "h.db"), "", size, freq)
 	if err != nil {
 		panic(err)
 	}
@@ -69,7 +68,7 @@ func newBolt(dir string, size uint64, freq float64) *mercure.BoltTransport {
 // watcher: a subscriber with topic "*" and claim "*", registered directly on the transport.
 func addWatcher(f *fixture) *mercure.LocalSubscriber {
 	tss, _ := mercure.NewTopicSelectorStoreLRU(0, 0)
-	s := mercure.NewLocalSubscriber("", zap.NewNop(), tss)
+	s := mercure.NewLocalSubscriber("", zapNop(), tss)
 	s.SetTopics([]string{"*"}, []string{"*"})
 	if err := f.tr.AddSubscriber(s); err != nil {
 		panic(err)
@@ -306,7 +305,7 @@ func runPub(c *h.Ctx, r *h.Report) {
 			continue
 		}
 		tss, _ := mercure.NewTopicSelectorStoreLRU(0, 0)
-		s := mercure.NewLocalSubscriber("earliest", zap.NewNop(), tss)
+		s := mercure.NewLocalSubscriber("earliest", zapNop(), tss)
 		s.SetTopics([]string{"*"}, []string{"*"})
 		if len(x.acc) > 900 {
 			continue // beyond the subscriber buffer; covered by C07/C13
